@@ -16,7 +16,7 @@ RULE = ("random renderable-tree specs (depth <=4: text, rule, bar, progress bar,
 ASSUMPTIONS = ["structural minimum m(spec) as defined in rv/gen/specs.py:structural_min (DESIGN section 3.4), erring upward",
                "a ProgressBar is an inline renderable (no newline): it may only be the last child of a group",
                "Text with overflow='ignore' is excluded: it is documented not to be truncated"]
-REQUIRED = ["mon.line_width", "mon.render"]
+REQUIRED = ["mon.line_width", "mon.render", "mon.render_with_options_narrower_than_console", "mon.render_through_print_width"]
 MIN_NONTRIVIAL = {"quick": 3000, "thorough": 200000}
 
 
